@@ -24,13 +24,14 @@ type LoopSpec struct {
 }
 
 type SiteAssert struct {
-	Label string
-	Site  string // source text (prefix) of the instruction the assertion is attached before
-	Text  string
-	Expr  ast.Expr
-	Hits  int
-	Mark  bool            // mark[name]: not an obligation; Label is the mark's name
-	alt   ssa.Instruction // re-attachment when the quoted text matches nothing (resolveSites)
+	Label   string
+	Site    string // source text (prefix) of the instruction the assertion is attached before
+	Text    string
+	Expr    ast.Expr
+	Hits    int
+	Mark    bool            // mark[name]: not an obligation; Label is the mark's name
+	AltSite string          // second accepted spelling of Site (a callee that was renamed)
+	alt     ssa.Instruction // re-attachment when the quoted text matches nothing (resolveSites)
 }
 
 type Contract struct {
